@@ -71,6 +71,20 @@ def check(ctx, src, pattern, kind, must_be_empty=False):
         for pk, detail in problems[:3]:
             ctx.violation('C10|not-an-embedding|%s|%s' % (pk, kind), case, detail)
     ctx.case(nt)
+    if matches and kind == 'derived' and ctx.evaluations % 5 == 0 and pattern.strip() not in ('pass', '___'):      # (a bare wildcard matches the empty module too)
+        # the same question asked about a program that is given explicitly and is EMPTY (e.g. the part before the first marker of
+        # a file that starts with a marker): nothing of the pattern occurs in it
+        for empty in ('', '\n'):
+            try:
+                stray = find_matches(pattern, empty)
+            except Exception as e:
+                ctx.violation('C10|find_matches-raised|%s|%s|explicit-empty-program' % (type(e).__name__, site_of(e)), dict(case, explicit_code=empty), traceback.format_exc()[-400:])
+                break
+            ctx.count('questions_about_an_explicit_empty_program')
+            if stray:
+                ctx.violation('C10|match-for-pattern-with-absent-content|explicit-empty-program', dict(case, explicit_code=empty),
+                              '%d matches in an empty program (the submission\'s own code was searched instead)' % len(stray))
+                break
     if matches and ctx.evaluations % 211 == 0:
         m = matches[0]
         ctx.sample({'pattern': pattern, 'perturbation': kind, 'matches': len(matches),
